@@ -9,6 +9,8 @@ REQUIRED_BRANCHES = [
     "agg:sum", "agg:min", "agg:max", "agg:avg", "agg:wavg", "agg:count", "agg:card", "agg:quant",
     "agg:terms", "agg:ranges", "agg:dranges",
     # sketches nested under terms / range buckets, several non-empty buckets; aggregation definitions re-used by later requests
+    # date range bounds outside the window int64 nanoseconds can represent (years 1, 1600, 1677, 2263, 9999), some with matches inside
+    "date-bound-outside-int64-nanos", "date-range-far-bound-nonempty", "date-bound:outside-int64-nanos",
     "nested-quantiles", "nested-cardinality", "nested-sketch-several-buckets", "nested:quant", "nested:card", "def:reused",
 ]
 ASSUMPTIONS = [
@@ -46,6 +48,10 @@ def signature(rec):
         return "numeric-range-walk-exceeds-cap" if " q=nr:" in rec["op"] else "search-does-not-return"
     if v.startswith("bad:quantile-bounds-off-by-rounding"):
         return "tdigest-quantile-bounds-off-by-rounding"
+    # an aggregate of this kind differs from direct counting over the implementation's own match set
+    kind = v[4:].split(" ")[0]
+    if kind in ("count", "sum", "min", "max", "avg", "weighted-avg", "cardinality", "quantiles", "terms", "range", "date-range"):
+        return "differs-from-direct-counting:" + kind
     return None
 
 
